@@ -24,6 +24,8 @@ def main(run: Run):
     shadow_l1.add_to(run)
     from . import mux_l1
     mux_l1.add_to(run, "read")
+    from . import ctor_l1
+    ctor_l1.add_to(run, ['mux_check_map', 'mux_init'])
     return run.finish(
         explanation="Multiplexer.elaborate read-side contract per layout: strobe exactness and zero-when-idle for ALL input "
                     "sequences; atomic snapshot for protocol-conforming sequences via a ghost transaction monitor and an "
